@@ -232,6 +232,10 @@ def run_once(info, inputs):
     qual = info['function']
     parts = qual.split('.')
     fn = None
+    for target, src in (info.get('native_patches') or {}).items():
+        # assumed callee contracts realised natively (ghost parameters)
+        tm, _, ta = target.rpartition('.')
+        setattr(importlib.import_module(tm), ta, eval(src))
     if info.get('harness'):
         modname = info['module']
         g = dict(importlib.import_module(modname).__dict__)
@@ -288,10 +292,6 @@ def run_once(info, inputs):
         fn = fn.fget
     if isinstance(fn, (staticmethod, classmethod)):
         fn = fn.__func__
-    for target, src in (info.get('native_patches') or {}).items():
-        # assumed callee contracts realised natively (ghost parameters)
-        tm, _, ta = target.rpartition('.')
-        setattr(importlib.import_module(tm), ta, eval(src))
     ns = spec_namespace(info, modname)
     memo = {}
     vals = {k: build(v, memo) for k, v in inputs.items()}
